@@ -269,13 +269,35 @@ def agg_free(n):
 
 
 def fv(n):
-    """value-scope free variables of an aggregation-free node"""
-    if n[0] == 'ref':
+    """free_vars (value scope), without the agg_capability pseudo-variable"""
+    k = n[0]
+    if k == 'ref':
         return {n[1]}
+    if k == 'sagg':
+        return fv(n[2]) | fv(n[3]) | (fva(n[3]) - {n[1]})
     out = set()
     for c, bs, mode in slots(n):
-        if mode == 'v':
+        if mode != 'a':
             out |= fv(c) - set(bs)
+    return out
+
+
+def fva(n):
+    """free_agg_vars: what is read from the element environments of the aggregation scope"""
+    k = n[0]
+    if k in LEAVES:
+        return set()
+    if k == 'sagg':
+        return fva(n[2])
+    if k == 'agglet':
+        return fv(n[2]) | (fva(n[3]) - {n[1]})
+    if k == 'aggfilter':
+        return fv(n[1]) | fva(n[2])
+    if k == 'agg':
+        return fv(n[2])
+    out = set()
+    for c, _, _ in slots(n):
+        out |= fva(c)
     return out
 
 
@@ -324,27 +346,80 @@ def rebuild(n, f):
     raise ValueError(k)
 
 
+def uses_agg(n):
+    """does the value depend on the ambient aggregation scope (agg_capability in free_vars)?"""
+    k = n[0]
+    if k in ('agg', 'aggfilter'):
+        return True
+    if k == 'agglet':
+        return uses_agg(n[3])
+    if k == 'sagg':
+        return uses_agg(n[2])
+    return any(uses_agg(c) for c, _, _ in slots(n))
+
+
 def subst(x, v, n):
-    if n[0] == 'ref':
+    """value-scope substitution; aggregation-scope children and StreamAgg queries are left alone"""
+    k = n[0]
+    if k == 'ref':
         return v if n[1] == x else n
-    if n[0] in AGG_KINDS:
+    if k == 'sagg':
+        return ('sagg', n[1], subst(x, v, n[2]), n[3])
+    if k == 'agglet':
+        return ('agglet', n[1], n[2], subst(x, v, n[3]))
+    if k == 'aggfilter':
+        return ('aggfilter', n[1], subst(x, v, n[2]))
+    if k == 'agg':
         return n
     return rebuild(n, lambda c, bs, m: c if x in bs else subst(x, v, c))
 
 
-def subst_ok(x, F, n):
-    if n[0] in AGG_KINDS:
-        return False
+def subst_ok(x, F, FA, dep, n):
+    k = n[0]
+    if k == 'sagg':
+        return subst_ok(x, F, FA, dep, n[2]) and x not in (fv(n[3]) | (fva(n[3]) - {n[1]}))
+    if k == 'aggfilter':
+        return x not in fv(n[2]) or (not dep and subst_ok(x, F, FA, dep, n[2]))
+    if k == 'agglet':
+        return x not in fv(n[3]) or ((not dep or n[1] not in FA) and subst_ok(x, F, FA, dep, n[3]))
+    if k == 'agg':
+        return True
     for c, bs, _ in slots(n):
         if not bs:
-            if not subst_ok(x, F, c):
+            if not subst_ok(x, F, FA, dep, c):
                 return False
-        else:
-            if not agg_free(c):
-                return False
-            if not (x in bs or x not in fv(c) or (not (set(bs) & F) and subst_ok(x, F, c))):
-                return False
+        elif not (x in bs or x not in fv(c) or (not (set(bs) & F) and subst_ok(x, F, FA, dep, c))):
+            return False
     return True
+
+
+def subst_a(x, v, n):
+    """aggregation-scope substitution (an AggLet binding): only aggregation-scope children see x"""
+    k = n[0]
+    if k in LEAVES:
+        return n
+    if k == 'sagg':
+        return ('sagg', n[1], subst_a(x, v, n[2]), n[3])
+    if k == 'agglet':
+        return ('agglet', n[1], subst(x, v, n[2]), n[3] if n[1] == x else subst_a(x, v, n[3]))
+    if k == 'aggfilter':
+        return ('aggfilter', subst(x, v, n[1]), subst_a(x, v, n[2]))
+    if k == 'agg':
+        return ('agg', n[1], subst(x, v, n[2]))
+    return rebuild(n, lambda c, bs, m: subst_a(x, v, c))
+
+
+def subst_a_ok(x, F, FA, dep, n):
+    k = n[0]
+    if k == 'sagg':
+        return subst_a_ok(x, F, FA, dep, n[2])
+    if k == 'agglet':
+        return subst_ok(x, F, FA, dep, n[2]) and (n[1] == x or (n[1] not in F and subst_a_ok(x, F, FA, dep, n[3])))
+    if k == 'aggfilter':
+        return subst_ok(x, F, FA, dep, n[1]) and subst_a_ok(x, F, FA, dep, n[2])
+    if k == 'agg':
+        return subst_ok(x, F, FA, dep, n[2])
+    return all(subst_a_ok(x, F, FA, dep, c) for c, _, _ in slots(n))
 
 
 def inline_cse(n):
@@ -352,32 +427,21 @@ def inline_cse(n):
     if k == 'let':
         v, b = inline_cse(n[2]), inline_cse(n[3])
         return subst(n[1], v, b) if is_cse(n[1]) else ('let', n[1], v, b)
-    if k == 'sagg':
-        return ('sagg', n[1], inline_cse(n[2]), n[3])
-    if k in ('agglet', 'aggfilter', 'agg'):
-        return n
+    if k == 'agglet':
+        v, b = inline_cse(n[2]), inline_cse(n[3])
+        return subst_a(n[1], v, b) if is_cse(n[1]) else ('agglet', n[1], v, b)
     return rebuild(n, lambda c, bs, m: inline_cse(c))
-
-
-def cse_let_free(n):
-    if n[0] in ('let', 'agglet') and is_cse(n[1]):
-        return False
-    return all(cse_let_free(c) for c, _, _ in slots(n))
 
 
 def inline_ok(n):
     k = n[0]
-    if k == 'let':
+    if k in ('let', 'agglet'):
         if not (inline_ok(n[2]) and inline_ok(n[3])):
             return False
         if not is_cse(n[1]):
             return True
         v, b = inline_cse(n[2]), inline_cse(n[3])
-        return agg_free(v) and agg_free(b) and subst_ok(n[1], fv(v), b)
-    if k == 'sagg':
-        return inline_ok(n[2]) and cse_let_free(n[3])
-    if k in ('agglet', 'aggfilter', 'agg'):
-        return all(cse_let_free(c) for c, _, _ in slots(n))
+        return (subst_ok if k == 'let' else subst_a_ok)(n[1], fv(v), fva(v), uses_agg(v), b)
     return all(inline_ok(c) for c, _, _ in slots(n))
 
 
@@ -1128,16 +1192,19 @@ class C35(Prop):
     level = 'translation_validation'
     engine = 'E4-frontend'
     design_ref = 'DESIGN.md §4 C35'
-    technique = ('translation validation of every generated program by a validator proved sound in Lean 4 (substitution lemma, '
-                 'inlining of the lifted lets, decision procedure for well-scopedness) + evaluation of rendered vs inlined IR on '
+    technique = ('translation validation of every generated program by a validator proved sound in Lean 4 (coincidence for free_vars / '
+                 'free_agg_vars, substitution lemmas for the value scope and the aggregation scope, inlining of the lifted Let / AggLet '
+                 'bindings, decision procedure for well-scopedness) + evaluation of rendered vs inlined IR on '
                  'sampled environments by two independent evaluators (Lean model, Python)')
     level_text = ('Every generated DAG (real hail.ir node objects with shared sub-objects) is rendered by the real CSERenderer and by the '
                   'real PlainRenderer; the Lean driver parses both texts into the model IR and runs (a) the validator `validate` — '
                   'proved in Lean (validate_sound): accepted => rendered and inlined IR have the same value in EVERY environment; '
                   '(b) the scope checker `scopeOk`, proved to decide WellScoped (value scope and aggregation scope); (c) the check that no '
                   'lifted binding is referenced from inside an If branch that does not contain it; (d) both programs evaluated on sampled '
-                  'environments.  Programs whose lifted bindings sit inside aggregation queries (AggLet bindings, lets inside StreamAgg '
-                  'queries) are outside the proved validator and are compared by (b)-(d) only; both counts are in the evidence.  No '
+                  'environments.  The validator covers aggregation contexts: value-scope bindings of aggregations inside StreamAgg queries '
+                  '(never used across an AggFilter, nor across an AggLet that binds one of their free aggregation variables — the '
+                  'agg_capability rule, modelled by usesAgg / fva and proved sound) and aggregation-scope bindings (AggLet __cse); EVERY '
+                  'generated program must be accepted by it (the evidence counts accepted programs; a rejected one is a violation).  No '
                   'theorem is claimed about the renderer\'s stack machine itself: at the specification level only ONE lifting step is proved '
                   'meaning-preserving (cse_step_preserves: binding any subterm once above a site and replacing its occurrences, except below '
                   'binders that rebind its variables); that the stack machine iterates exactly such steps is not proved.')
@@ -1348,9 +1415,12 @@ class C35(Prop):
             if a != b:
                 return (f'rendered IR evaluates to {show_val(a)} but the inlined IR to {show_val(b)} in environment {json.dumps(env)}; '
                         'rendered = ' + ' '.join(self.render(c)[0].split())[:400])
-        if agg_free(R) and not validate(R, P):
-            return ('inlining the lifted bindings of the rendered IR (capture-avoiding) does not give back the DAG printed as a tree; '
-                    'rendered = ' + ' '.join(self.render(c)[0].split())[:400])
+        if not validate(R, P):
+            why = ('a lifted binding is used where it does not mean what it meant at its site: below a binder that rebinds one of its '
+                   'variables, or — an aggregation — below an AggFilter/AggLet that changes the aggregation scope (agg_capability rule)'
+                   if not inline_ok(R) else 'inlining the lifted bindings does not give back the DAG printed as a tree')
+            return ('the verified validator rejects the rendering: ' + why + '; rendered = '
+                    + ' '.join(self.render(c)[0].split())[:400])
         if not branch_local(R):
             return ('a lifted binding is referenced from inside an If branch but bound outside it (the engine would evaluate it even '
                     'when the branch is not taken); rendered = ' + ' '.join(self.render(c)[0].split())[:400])
@@ -1439,7 +1509,7 @@ class C35(Prop):
                 tags.append('binding-used-less-than-twice')
             agg_b = any(True for x in self._agg_lets(R))
             tags.append('lifted-into-agg-scope' if agg_b else 'lifted-in-value-scope-only')
-            tags.append('validated-by=verified-validator' if m.group(1) == '1' else 'validated-by=evaluation+scope-only')
+            tags.append('validated-by=verified-validator' if m.group(1) == '1' else 'rejected-by-the-validator')
             names = [n[1] for n in c['nodes'] if n[0] in ('let', 'map', 'filter', 'sagg', 'agglet')] + \
                     [x for n in c['nodes'] if n[0] == 'fold' for x in (n[1], n[2])]
             if len(names) != len(set(names)):
@@ -1495,9 +1565,9 @@ class C35(Prop):
         s = getattr(self, 'stats', {'verified': 0, 'eval_only': 0, 'programs': 0, 'known': {}})
         return {'programs': s['programs'], 'disagreements_checked': s['programs'],
                 'programs_accepted_by_verified_validator': s['verified'],
-                'programs_checked_by_scope_and_evaluation_only': s['eval_only'],
+                'programs_rejected_by_the_validator': s['eval_only'],
                 'failures_attributed_to_known_defects': dict(s['known']),
-                'explanation': 'programs = generated DAGs rendered by the real CSERenderer; each one is checked (validator or '
+                'explanation': 'programs = generated DAGs rendered by the real CSERenderer; each one is checked (validator AND '
                                'evaluation on 3 environments, scope check, branch rule) by the Lean driver and by the Python twin; '
                                'disagreements_checked = programs for which the two sides\' verdict lines were compared'}
 
